@@ -3653,6 +3653,94 @@ def num5(units, R, unit_names=('cJSON.c',), floor=0):
     R.floor('NUM5', 'decimal accumulations in a double inside a loop', n, floor)
 
 
+# ---- NUM6: a number that was converted is refused only if it is not finite ------------------------------------------------------
+
+def num6(units, R, fn_name='parse_number'):
+    """Behind the strtod call of parse_number the parse fails only (a) because nothing was converted (the end pointer did not move),
+    or (b) under a test that the result is not a finite number (> DBL_MAX, < -DBL_MAX, isinf, isnan).  Every finite double is printed
+    as a literal that has to parse again (C04), and every literal of the grammar denotes a number (C02): a refusal for another
+    reason - errno == ERANGE is also raised when the result is a subnormal number - loses texts the printer itself produces."""
+    u = units['cJSON.c']
+    fn = u.fn(fn_name)
+    convs = [c for c in fn.calls() if callee_name(c) in ('strtod', 'strtold', 'strtof') and len(c['args']) >= 2]
+    if len(convs) != 1:
+        raise AnalysisBroken('NUM6: parse_number does not convert with exactly one strtod call (%d found)' % len(convs))
+    c = convs[0]
+    cfg = fn.cfg()
+    cn = cfg.node_of_expr(c['id'])
+    par = fn.parents()
+    p = par.get(c['id'])
+    while p is not None and p.get('k') == 'cast':
+        p = par.get(p['id'])
+    res = None
+    if p is not None and p.get('k') == 'bin' and p['op'] == '=' and is_ref(p['l']):
+        res = strip_casts(p['l'])['d']
+    else:
+        for d_ in fn.locals():
+            if 'init' in d_ and any(x is c for x in walk(d_['init'])):
+                res = d_['d']
+    e = strip_casts(c['args'][1])
+    endv = strip_casts(e['e']).get('d') if (e.get('k') == 'un' and e['op'] == '&') else None
+    if cn is None or res is None or endv is None:
+        raise AnalysisBroken('NUM6: the result or the end pointer of strtod in parse_number is not a local')
+    after = cfg.reachable(cn.id)
+    good = [r.id for r in cfg.returns() if r.expr is not None and const_val(r.expr) not in (0, None)]
+    alive = set()
+    for g in good:
+        alive |= cfg.reachable(g, forward=False)
+
+    def about_end(x):
+        return any(y.get('k') == 'ref' and y.get('d') == endv for y in walk(x))
+
+    def not_finite(x, truth):
+        """is the edge (x evaluated to truth) one on which the result is known not to be a finite number"""
+        x = strip_casts(x)
+        if x.get('k') == 'call' and any(t in (callee_name(x) or '') for t in ('isinf', 'isnan', 'finite')) and \
+                any(y.get('k') == 'ref' and y.get('d') == res for y in walk(x)):
+            return truth != ('finite' in (callee_name(x) or ''))
+        if x.get('k') == 'bin' and x['op'] in ('>', '<', '>=', '<='):
+            l, r = strip_casts(x['l']), strip_casts(x['r'])
+            for (v, k_, op) in ((l, r, x['op']), (r, l, {'>': '<', '<': '>', '>=': '<=', '<=': '>='}[x['op']])):
+                if v.get('k') == 'ref' and v.get('d') == res:
+                    neg = False
+                    while k_.get('k') == 'un' and k_['op'] == '-':
+                        neg = not neg
+                        k_ = strip_casts(k_['e'])
+                    val = float(k_['fval']) if k_.get('k') == 'float' else None
+                    if val is not None and val >= 1.7976931348623157e308:
+                        # number > DBL_MAX (true) / number < -DBL_MAX (true)
+                        if truth and ((op == '>' and not neg) or (op == '<' and neg)):
+                            return True
+        if x.get('k') == 'bin' and x['op'] == '!=' and truth:
+            l, r = strip_casts(x['l']), strip_casts(x['r'])
+            if l.get('k') == 'ref' and r.get('k') == 'ref' and l.get('d') == r.get('d') == res:
+                return True         # number != number: NaN
+        return False
+    n = 0
+    for nd in cfg.nodes:
+        if nd.id not in after and nd.id != cn.id:
+            continue
+        if nd.id not in alive:
+            continue
+        for (m, label) in cfg.succ[nd.id]:
+            if m in alive:
+                continue
+            if label is None or label[0] not in ('T', 'F'):
+                continue
+            n += 1
+            x = label[1]
+            truth = label[0] == 'T'
+            ok = about_end(x) or not_finite(x, truth) or \
+                guarded_by(cfg, nd.id, lambda nn, l: nn.kind == 'branch' and l is not None and l[0] in ('T', 'F') and nn.id in after and
+                           not_finite(l[1], l[0] == 'T'))
+            R.ob('NUM6', fn, x, 'a number that strtod converted is refused only if it is not finite', ok,
+                 'the end pointer did not move' if about_end(x) else ('under a test that the result is not finite' if ok else
+                 'refused when %s is %s, which says nothing about the result being finite (ERANGE is raised for a subnormal result as well): '
+                 'a literal the printer produces no longer parses' % (expr_str(strip_casts(x))[:40], 'true' if truth else 'false')),
+                 key='refusal:%s' % expr_str(strip_casts(x))[:40])
+    R.floor('NUM6', 'ways of parse_number to fail behind the conversion', n, 1)
+
+
 # ---- NUM3: a hoisted scan bound covers all of the remaining input --------------------------------------------------------
 
 def num3(units, R):
